@@ -69,6 +69,37 @@ theorem C11_success_means_no_fault (F : Faults) (o : Opts) (kind : Kind) (size :
   have := C11_error_surfaces_batch F o kind size d₀ n₀ fs hend hlog hown hf
   rw [hok] at this; cases this
 
+/-- ERRORS SURFACE, stream: the same for `WriteMessage` … `SequenceCompleted` series through the stream encoder (as pinned
+and as repaired): any failed destination operation makes the run end with an error — the failing call is the one in
+progress, see `C11_call_error_surfaces` — and is never reported as success. -/
+theorem C11_error_surfaces_stream (F : Faults) (c : StreamCfg) (o : Opts) (h : Fit.Wire.Hdr) (kind : Kind) (size : Nat) (d₀ : Dest)
+    (n₀ hdrDs : Nat) (mss : List (List WMsg)) (hne : ∀ ms ∈ mss, ms ≠ []) (hdir : kind.direct = true)
+    (hend : d₀.pos = d₀.content.length) (hlog : ¬ Faulted d₀) (hown : kind = .at → n₀ = d₀.content.length)
+    (hf : Faulted (Stream.chain F c o h (Fit.C09.streamOn o kind size d₀ n₀ hdrDs) mss).1.e.w.d) :
+    (Stream.chain F c o h (Fit.C09.streamOn o kind size d₀ n₀ hdrDs) mss).2.2 = false := by
+  obtain ⟨e1, e2⟩ := Fit.C09.C09_stream_equals_batch F c o h kind size d₀ n₀ hdrDs mss hne hdir hend hown
+  rw [e1] at hf
+  rw [e2]
+  exact C11_error_surfaces_batch F o kind size d₀ n₀ _ hend hlog hown hf
+
+/-- ERRORS SURFACE, call by call, from ANY state of the encoder (also after earlier failed calls were ignored), for any
+message validator: an `Encode`, a `WriteMessage` or a `SequenceCompleted` that reports success has seen no failed
+operation of the destination — every failure, wherever it lands (inside the buffered writer's flush, the header rewrite,
+the final flush), fails the call in progress. -/
+theorem C11_call_error_surfaces {σ : Type} (V : MsgValidator σ) (F : Faults) (c : StreamCfg) (o : Opts) (h : Fit.Wire.Hdr) :
+    (∀ (e : Enc) (f : FitIn), ¬ Faulted e.w.d → e.w.berr = false → (encodeV V F o e f).2 = .ok → ¬ Faulted (encodeV V F o e f).1.w.d) ∧
+    (∀ (s : Stream) (vs : σ) (m : WMsg), ¬ Faulted s.e.w.d → s.e.w.berr = false → (s.writeMessageV V F o h vs m).2.2 = .ok →
+      ¬ Faulted (s.writeMessageV V F o h vs m).1.e.w.d) ∧
+    (∀ (s : Stream) (vs : σ), ¬ Faulted s.e.w.d → s.e.w.berr = false → (s.sequenceCompletedV V F c o h vs).2.2 = .ok →
+      ¬ Faulted (s.sequenceCompletedV V F c o h vs).1.e.w.d) := by
+  refine ⟨?_, ?_, ?_⟩
+  · intro e f h1 h2 hok hf
+    exact not_clean_of_faulted hf (encodeV_clean V F o e f (clean_of_not_faulted h1 h2) hok)
+  · intro s vs m h1 h2 hok hf
+    exact not_clean_of_faulted hf (writeMessageV_clean V F o h s vs m (clean_of_not_faulted h1 h2) hok)
+  · intro s vs h1 h2 hok hf
+    exact not_clean_of_faulted hf (sequenceCompletedV_clean V F c o h s vs (clean_of_not_faulted h1 h2) hok)
+
 /-! ### finding KF-C11-1 (DESIGN §4 F13): the stream encoder's kept header -/
 
 namespace Witness
